@@ -13,6 +13,12 @@
 // small capacities, reached through Grow(k) on the zero value and Shrink, applying every operation
 // and argument class from every newly reached state (the prefix is replayed on a fresh deque);
 // (a) seeded random walks with biased operation mixes.
+//
+// Element types: the deque is generic, so the static element type is an input too. Besides *int,
+// int and string, the cover and a reduced number of walks run over uint8 (1 byte), struct{} (0
+// bytes; single-valued, so only Len/panics/iteration counts/hook state are informative and the
+// retention check is skipped), any (interface), a 608-byte struct and a struct of more than 4096
+// bytes (bounded cover and short walks, because every read copies and compares the element).
 package main
 
 import (
@@ -35,7 +41,10 @@ func main() {
 			"abstract state = (cap, front, len, allocated?) read through the hook BEFORE the call, counted only where that state is " +
 			"wrapped (front+len > cap), full (len == cap > 0) or one of the empty encodings (zero value, allocated with back == -1, cap == 0 non-nil); " +
 			"argument classes: Item/Set index in {neg, first, mid, last, len, beyond}, Grow n in {0, fits, realloc}, Shrink n in {neg, noop, to-fit, partial}. " +
-			"Pairs come from the state-cover closure (every class from every state with cap <= bound or cap == 16/32) and from the random walks.")
+			"Pairs come from the state-cover closure (every class from every state with cap <= bound or cap == 16/32) and from the random walks. " +
+			"Both run for each of 8 element types (*int, int, string, uint8, struct{}, any, a 608-byte struct, a >4096-byte struct; the last two with a smaller cover bound and fewer, shorter walks); " +
+			"the element type is not part of the pair's key.")
+		r.Assume("struct{} elements are indistinguishable: for that element type only lengths, panics, iteration counts and the raw state are compared")
 		r.Assume("a Deque value is not copied after first use (documented precondition); all calls on one deque come from one goroutine")
 		r.Assume("Grow is only called with n >= 0 (negative n is not specified by the statement)")
 		r.Assume("which panic value a refused call raises is not judged: any panic counts as 'panicked'")
@@ -51,8 +60,18 @@ func main() {
 
 type elemKind[T comparable] struct {
 	name string
-	mk   func(id int) T // id >= 1; never the zero value of T
+	mk   func(id int) T // id >= 1; never the zero value of T (except for noTokens kinds)
 	show func(T) string
+
+	// noTokens: T has a single value (zero-size type), which is its own zero value. Values cannot
+	// tell anything; Len, panics, iteration counts and the hook state still can. The raw-ring
+	// retention check does not apply.
+	noTokens bool
+	// light > 0: the element type is expensive to copy and compare; the state cover is bounded to
+	// cap <= light (no larger capacities are expanded), walks are short and Grow arguments small.
+	light   int
+	maxGrow int // 0 = unlimited
+	maxOps  int // 0 = the tier's default walk length
 }
 
 var intKind = elemKind[int]{
@@ -76,6 +95,67 @@ var strKind = elemKind[string]{
 	name: "string",
 	mk:   func(id int) string { return fmt.Sprintf("s%d", id) },
 	show: func(s string) string { return fmt.Sprintf("%q", s) },
+}
+
+// The implementation is generic; the only thing about T it could depend on is its size and
+// layout. The kinds below vary exactly that: 1 byte (adjacent slots), 0 bytes, an interface, a few
+// hundred bytes, and more than a page (4 KiB) per element.
+
+var byteKind = elemKind[uint8]{
+	name: "uint8",
+	mk:   func(id int) uint8 { return uint8(id%255) + 1 }, // non-zero; repeats after 255 pushes
+	show: func(v uint8) string { return fmt.Sprint(v) },
+}
+
+type unit struct{}
+
+var unitKind = elemKind[unit]{
+	name:     "struct{}",
+	mk:       func(id int) unit { return unit{} },
+	show:     func(unit) string { return "{}" },
+	noTokens: true,
+}
+
+var anyKind = elemKind[any]{
+	name: "any",
+	mk:   func(id int) any { return id },
+	show: func(v any) string { return fmt.Sprintf("any(%v)", v) },
+}
+
+type mid struct {
+	id  int
+	pad [600]byte
+}
+
+var midKind = elemKind[mid]{
+	name: "struct{int;[600]byte}",
+	mk: func(id int) mid {
+		m := mid{id: id}
+		m.pad[0], m.pad[599] = byte(id)|1, byte(id>>8)|1
+		return m
+	},
+	show:    func(m mid) string { return fmt.Sprintf("mid#%d(%d..%d)", m.id, m.pad[0], m.pad[599]) },
+	light:   6,
+	maxGrow: 300,
+	maxOps:  250,
+}
+
+type big struct {
+	id  int
+	pad [4097]byte // one byte more than a page: unsafe.Sizeof(big{}) > 4096
+}
+
+var bigKind = elemKind[big]{
+	name: "struct{int;[4097]byte}",
+	mk: func(id int) big {
+		b := big{id: id}
+		b.pad[0], b.pad[4096] = byte(id)|1, byte(id>>8)|1
+		return b
+	},
+	show:    func(b big) string { return fmt.Sprintf("big#%d(%d..%d)", b.id, b.pad[0], b.pad[4096]) },
+	light:   4,
+	maxGrow: 64,
+	maxOps:  120,
 }
 
 // ---------------------------------------------------------------------------------------------
@@ -721,6 +801,9 @@ func (x *runner[T]) checkIterate() {
 
 // ring checks the retention clause on the raw buffer.
 func (x *runner[T]) ring() {
+	if x.ek.noTokens {
+		return
+	}
 	st := x.d.VerifState()
 	if !st.Allocated || st.Cap == 0 {
 		return
@@ -802,15 +885,18 @@ func (x *runner[T]) readBack(last op) {
 // ---------------------------------------------------------------------------------------------
 // (b) State cover: closure of the abstract state graph under every operation class.
 
-func coverCaps(r *vkit.Report) (bound int, extra []int) {
+func coverCaps(r *vkit.Report, light int) (bound int, extra []int) {
+	if light > 0 {
+		return light, nil
+	}
 	if r.Thorough() {
 		return 12, []int{16, 32}
 	}
 	return 8, []int{16}
 }
 
-func coverable(r *vkit.Report, k stKey) bool {
-	bound, extra := coverCaps(r)
+func coverable(r *vkit.Report, light int, k stKey) bool {
+	bound, extra := coverCaps(r, light)
 	if k.cap <= bound {
 		return true
 	}
@@ -859,32 +945,50 @@ func classOps(n, c int) []op {
 var tailMix = []int{14, 14, 12, 12, 3, 3, 8, 8, 2, 8, 10, 6}
 
 func cover(r *vkit.Report, sh *shared) {
-	r.Cases("cover", 3, 3, func(c *vkit.Case) {
+	r.Cases("cover", 8, 8, func(c *vkit.Case) {
 		switch c.Index {
 		case 0:
 			coverT(c, sh, ptrKind)
 		case 1:
 			coverT(c, sh, intKind)
-		default:
+		case 2:
 			coverT(c, sh, strKind)
+		case 3:
+			coverT(c, sh, byteKind)
+		case 4:
+			coverT(c, sh, unitKind)
+		case 5:
+			coverT(c, sh, anyKind)
+		case 6:
+			coverT(c, sh, midKind)
+		default:
+			coverT(c, sh, bigKind)
 		}
 	})
 	if r.Replaying() {
 		return
 	}
 	// Every (cap, front, len) with cap in the covered set is reachable; the closure must find all.
-	bound, extra := coverCaps(r)
-	want := int64(2) // zero value; cap == 0 allocated
-	for cp := 1; cp <= bound; cp++ {
-		want += int64(cp*cp + 1)
+	var descr []string
+	for _, k := range []struct {
+		name  string
+		light int
+	}{
+		{ptrKind.name, 0}, {intKind.name, 0}, {strKind.name, 0}, {byteKind.name, 0}, {unitKind.name, 0}, {anyKind.name, 0},
+		{midKind.name, midKind.light}, {bigKind.name, bigKind.light},
+	} {
+		bound, extra := coverCaps(r, k.light)
+		want := int64(2) // zero value; cap == 0 allocated
+		for cp := 1; cp <= bound; cp++ {
+			want += int64(cp*cp + 1)
+		}
+		for _, cp := range extra {
+			want += int64(cp*cp + 1)
+		}
+		r.Floor("abstract states expanded by the state cover for Deque["+k.name+"]", r.Table("state cover: abstract states expanded", k.name), want)
+		descr = append(descr, fmt.Sprintf("Deque[%s]: cap <= %d or cap in %v, %d states", k.name, bound, extra, want))
 	}
-	for _, cp := range extra {
-		want += int64(cp*cp + 1)
-	}
-	for _, name := range []string{"*int", "int", "string"} {
-		r.Floor("abstract states expanded by the state cover for Deque["+name+"]", r.Table("state cover: abstract states expanded", name), want)
-	}
-	r.SetExtra("state_cover", fmt.Sprintf("closure under every operation/argument class of all abstract states (cap, front, len, allocated?) with cap <= %d or cap in %v: %d states per element type, all reached and expanded", bound, extra, want))
+	r.SetExtra("state_cover", "closure under every operation/argument class of all abstract states (cap, front, len, allocated?), all reached and expanded: "+strings.Join(descr, "; "))
 }
 
 type coverNode struct {
@@ -895,11 +999,11 @@ type coverNode struct {
 func coverT[T comparable](c *vkit.Case, sh *shared, ek elemKind[T]) {
 	r := c.R
 	rnd := c.Rand
-	bound, extra := coverCaps(r)
+	bound, extra := coverCaps(r, ek.light)
 	queued := make(map[stKey]bool)
 	var queue []coverNode
 	push := func(k stKey, prefix []op) {
-		if queued[k] || !coverable(r, k) {
+		if queued[k] || !coverable(r, ek.light, k) {
 			return
 		}
 		queued[k] = true
@@ -950,7 +1054,7 @@ func coverT[T comparable](c *vkit.Case, sh *shared, ek elemKind[T]) {
 				return
 			}
 			post := x.state()
-			if !queued[post] && coverable(r, post) {
+			if !queued[post] && coverable(r, ek.light, post) {
 				pp := append(append([]op{}, nd.prefix...), o)
 				push(post, pp)
 			}
@@ -958,7 +1062,7 @@ func coverT[T comparable](c *vkit.Case, sh *shared, ek elemKind[T]) {
 			// bound) is still used, and latent damage shows.
 			tail := rnd.Range(2, 5)
 			for i := 0; i < tail && !x.failed; i++ {
-				x.step(randomOp(rnd, tailMix, len(x.model), x.state().cap))
+				x.step(ek.clamp(randomOp(rnd, tailMix, len(x.model), x.state().cap)))
 			}
 			x.flush()
 			if x.failed {
@@ -1027,6 +1131,14 @@ func randShrink(rnd *vkit.Rand, n, c int) int {
 	return v
 }
 
+// clamp keeps the buffers of expensive element types small.
+func (ek elemKind[T]) clamp(o op) op {
+	if o.k == opGrow && ek.maxGrow > 0 && o.arg > ek.maxGrow {
+		o.arg = ek.maxGrow
+	}
+	return o
+}
+
 func randomOp(rnd *vkit.Rand, mix []int, n, c int) op {
 	k := opKind(rnd.Weighted(mix))
 	switch k {
@@ -1070,6 +1182,21 @@ func walks(r *vkit.Report, sh *shared) {
 			walkT(c, sh, strKind)
 		}
 	})
+	// A reduced number of walks over the element types that differ in size and layout.
+	r.Cases("walkx", r.Scale(400, 6000), runtime.GOMAXPROCS(0), func(c *vkit.Case) {
+		switch c.Index % 8 {
+		case 0, 1:
+			walkT(c, sh, byteKind)
+		case 2, 3:
+			walkT(c, sh, unitKind)
+		case 4, 5:
+			walkT(c, sh, anyKind)
+		case 6:
+			walkT(c, sh, midKind)
+		default:
+			walkT(c, sh, bigKind)
+		}
+	})
 }
 
 func walkT[T comparable](c *vkit.Case, sh *shared, ek elemKind[T]) {
@@ -1098,6 +1225,9 @@ func walkT[T comparable](c *vkit.Case, sh *shared, ek elemKind[T]) {
 	total := rnd.Range(30, r.Scale(400, 1500))
 	if r.Thorough() && rnd.Intn(40) == 0 {
 		total = rnd.Range(3000, 5000)
+	}
+	if ek.maxOps > 0 && total > ek.maxOps {
+		total = rnd.Range(30, ek.maxOps)
 	}
 	var phases []string
 	for x.nops < total && !x.failed {
@@ -1140,7 +1270,7 @@ func walkT[T comparable](c *vkit.Case, sh *shared, ek elemKind[T]) {
 		phases = append(phases, m.name)
 		r.Count("walk phases", m.name, 1)
 		for i := 0; i < plen && !x.failed; i++ {
-			x.step(randomOp(rnd, m.w, len(x.model), x.state().cap))
+			x.step(ek.clamp(randomOp(rnd, m.w, len(x.model), x.state().cap)))
 		}
 	}
 	if !x.failed {
